@@ -671,6 +671,12 @@ class Interp:
                 if r is not False:
                     res = r if res is False else SBool(z3.Or(zbool(res), zbool(r)))
             return res
+        if isinstance(container, GenObj):
+            for x in self.iterate(container):
+                r = x is item or self.equals(x, item)
+                if self.truth(r):
+                    return True
+            return False
         if isinstance(container, (str, SStr)) and isinstance(item, (str, SStr)):
             return wrap_bool(z3.Contains(zstr(container), zstr(item)))
         if isinstance(container, Obj) and isinstance(container.cls, ClassInfo):
